@@ -1,26 +1,30 @@
 --------------------------------- MODULE Mxj ---------------------------------
 (***************************************************************************)
 (* Integrated specification: the option register machine (MxjOptions)      *)
-(* composed with the codec specifications (MxjXml, MxjXmlEncode, MxjSeq).  *)
-(* A behaviour is a history of option-setter calls; in every state the     *)
-(* decoders and encoders are FUNCTIONS OF THE CURRENT REGISTERS: the       *)
-(* decode of a document is MxjXml!Decode under the options read off `opt`, *)
-(* the encoding of a Map is MxjXmlEncode!RenderCompact under them, the     *)
-(* sequence codec depends on its own few registers only.  Used for C18's   *)
-(* second half ("interleaved with decode/encode/query calls"): random      *)
-(* walks through the setters, after which the real decoders and encoders   *)
-(* must produce what the codec specifications predict for the registers    *)
-(* the walk ended in.                                                      *)
+(* composed with the codec and query specifications (MxjXml, MxjXmlEncode, *)
+(* MxjSeq, MxjPath, MxjArgs).  A behaviour is a SESSION: a history of      *)
+(* option-setter calls interleaved with operation calls on fixed probe     *)
+(* inputs.  Setters change the registers; operations change nothing and    *)
+(* are FUNCTIONS OF THE CURRENT REGISTERS (and of their input): the decode *)
+(* of a document is MxjXml!Decode under the options read off `opt`, the    *)
+(* encoding of a Map is MxjXmlEncode!RenderCompact under them, the leaf    *)
+(* paths are MxjPath!LeafSeq under the dot/prefix registers, a key search  *)
+(* with a sub-key STRING is MxjPath!VFK on the condition the string        *)
+(* denotes under the current field separator (MxjArgs!ParseSubKey).        *)
+(* No operation depends on an earlier call other than through `opt` --     *)
+(* the history variable records, for each operation step, the result the   *)
+(* specification gives at that point, and the real package is stepped      *)
+(* through the same session and compared after every call.                 *)
+(*   - exhaustive sessions over a few setters and one operation class      *)
+(*     (C01 decode, C08 query, C09 leaf): every history up to MaxHist;     *)
+(*   - random walks over all setters and operations (C18).                 *)
 (***************************************************************************)
-EXTENDS MxjOptions, MxjSeq, Json
-CONSTANTS ActiveFns, MaxHist
+EXTENDS MxjOptions, MxjSeq, MxjArgs, MxjCast, Json
+CONSTANTS ActiveFns, ActiveOps, MaxHist
 VARIABLES opt, hist
 vars == <<opt, hist>>
 ActiveCalls == {c \in Calls : c.fn \in ActiveFns}
 Init == opt = InitOpt /\ hist = <<>>
-Next == /\ Len(hist) < MaxHist
-        /\ \E c \in ActiveCalls : opt' = Eff(opt, c) /\ hist' = Append(hist, c)
-Spec == Init /\ [][Next]_vars
 
 \* the codec option records read off the registers
 DecOpts(o, cast) == [lower |-> o.lower, snake |-> o.snake, asmap |-> o.simpleAsMap, keep |-> o.keepSpaces, escdec |-> o.escDec,
@@ -39,15 +43,74 @@ ProbeMap == VM(<<"d", "o", "c">> :> VM((<<"-", "x">> :> VS(<<"1">>)) @@ (<<"@", 
                   @@ (<<"_", "t", "e", "x", "t">> :> VS(<<"u">>)) @@ (<<"e">> :> VL(<<VS(<<"a">>), VS(<<>>), VM(<<"-", "k">> :> VS(<<"v">>))>>)) @@ (<<"g">> :> EmptyMap)))
 \* single-character prefixes only (the codec specifications model prefixes as one character or empty)
 CodecDomain(o) == Len(o.attrPrefix) <= 1 /\ o.attrPrefix # o.keyPrefix
-Emit == (Len(hist) = MaxHist /\ CodecDomain(opt)) =>
-   PrintT(ToJson([f |-> "mxj", hist |-> hist,
-      dec |-> Jsonable(Decode(ProbeDoc, DecOpts(opt, FALSE))),
-      \* (the decode specification models the cast with the default cast registers; the full chain is MxjCast)
-      castdefault |-> (~opt.castInt /\ opt.castFloat /\ opt.castBool /\ ~opt.skipTag),
-      deccast |-> Jsonable(Decode(ProbeDoc, DecOpts(opt, TRUE))),
-      seq |-> Jsonable(DecodeSeq(ProbeSeqDoc, SeqOpts(opt))),
-      enc |-> Join(RenderCompact(EncodeRoot(ProbeMap, <<>>, EncOpts(opt)), EncOpts(opt))),
-      restore |-> RestoreCalls(TRUE)]))
+DefaultCastRegs(o) == ~o.castInt /\ o.castFloat /\ o.castBool /\ ~o.skipTag
+
+\* probe inputs of the query side (plain-string values of MxjPath)
+ProbeLeafMap == VM("doc" :> VM(("-x" :> VS("1")) @@ ("@y" :> VS("2")) @@ ("#text" :> VS("t")) @@ ("_text" :> VS("u"))
+                   @@ ("e" :> VL(<<VS("a"), VM(("-k" :> VS("v")) @@ ("#text" :> VS("w"))), VS("b"), VM("f" :> VL(<<VS("c"), VS("d")>>))>>))))
+LeafKeys == {"-x", "@y", "#text", "_text", "-k", "e", "f", "doc"}
+AttrKeysOf(o) == {k \in LeafKeys : o.attrPrefix # "" /\ Len(k) >= Len(o.attrPrefix) /\ SubSeq(k, 1, Len(o.attrPrefix)) = o.attrPrefix}
+\* list members told apart by "id"; keys and values that contain the OTHER separator
+ProbeQMap == VM("a" :> VL(<<VM(("id" :> VS("1")) @@ ("c" :> VS("x"))),
+                            VM(("id" :> VS("2")) @@ ("c" :> VS("x:x"))),
+                            VM(("id" :> VS("3")) @@ ("c" :> VS("x|x"))),
+                            VM(("id" :> VS("4")) @@ ("c|x" :> VS("x"))),
+                            VM(("id" :> VS("5")) @@ ("c:x" :> VS("x"))),
+                            VM(("id" :> VS("6")) @@ ("x" :> VS("c")))>>))
+\* sub-key strings (character sequences): each is legal under BOTH separators and denotes different conditions
+SubKeyStrs == {<<"c", ":", "x">>, <<"c", "|", "x">>, <<"c", "|", "x", ":", "x">>, <<"c", ":", "x", "|", "x">>,
+               <<"!", "c", ":", "x", "|", "x">>, <<"c", ":", "*">>, <<"c", "|", "*">>, <<"!", "c", "|", "x", ":", "*">>}
+
+\* leaf texts whose cast depends on the cast registers (what each denotes: CastCatalogue)
+CastTexts == {"Infinity", "+Inf", "NaN", "1", "1.5", "true", "9223372036854775807", "v"}
+CastOptsOf(o) == [cast |-> TRUE, toInt |-> o.castInt, toFloat |-> o.castFloat, toBool |-> o.castBool, nanInf |-> o.castNanInf, skipTag |-> "0"]
+
+\* the operations: [op |-> class, arg |-> which]
+AllOps == {[op |-> "dec", arg |-> a] : a \in {"plain", "cast"}} \cup {[op |-> "seq", arg |-> "plain"], [op |-> "enc", arg |-> "plain"]}
+          \cup {[op |-> "leaf", arg |-> a] : a \in {"T", "F"}}
+          \cup {[op |-> "query", arg |-> Join(s)] : s \in SubKeyStrs}
+          \cup {[op |-> "cast", arg |-> t] : t \in CastTexts}          \* NewMapXml(<r><c>t</c></r>, true): kind and token of the leaf
+Enabled(o, op) == CASE op.op \in {"seq", "enc", "cast"} -> CodecDomain(o)
+                    [] op.op = "dec" -> CodecDomain(o) /\ (op.arg = "cast" => DefaultCastRegs(o))   \* (the decode specification models the default cast registers; the full chain is MxjCast)
+                    [] OTHER -> TRUE
+\* the result the specification gives for an operation under registers o
+QueryResult(o, s) == LET pc == ParseSubKey(s, o.fieldSep) IN
+                     IF pc.ok THEN [ok |-> TRUE, vals |-> VFK(ProbeQMap, "a", {pc.c})] ELSE [ok |-> FALSE, vals |-> <<>>]
+OpResult(o, op) ==
+  CASE op.op = "dec" -> Jsonable(Decode(ProbeDoc, DecOpts(o, op.arg = "cast")))
+    [] op.op = "seq" -> Jsonable(DecodeSeq(ProbeSeqDoc, SeqOpts(o)))
+    [] op.op = "enc" -> Join(RenderCompact(EncodeRoot(ProbeMap, <<>>, EncOpts(o)), EncOpts(o)))
+    [] op.op = "leaf" -> LeafSeq(ProbeLeafMap, op.arg = "T", o.dot, AttrKeysOf(o), o.keyPrefix \o "text")
+    [] op.op = "query" -> QueryResult(o, CHOOSE s \in SubKeyStrs : Join(s) = op.arg)
+    [] op.op = "cast" -> CastOf(CHOOSE c \in Catalogue : c.s = op.arg, CastOptsOf(o), FALSE)     \* (the harness' skip function never names the key "c")
+
+ActiveOpSet == {op \in AllOps : op.op \in ActiveOps}
+SetterStep == Len(hist) < MaxHist /\ \E c \in ActiveCalls : opt' = Eff(opt, c) /\ hist' = Append(hist, [fn |-> c.fn, arg |-> c.arg])
+OpStep == Len(hist) < MaxHist /\
+          \E op \in ActiveOpSet : /\ Enabled(opt, op)
+                                   /\ UNCHANGED opt                                   \* operations do not touch the registers
+                                   /\ hist' = Append(hist, [op |-> op.op, arg |-> op.arg, r |-> OpResult(opt, op)])
+Next == SetterStep \/ OpStep
+Spec == Init /\ [][Next]_vars
+
+\* operations are functions of the registers: two operation steps of a behaviour with the same registers and
+\* the same operation recorded the same result (stated on the history; TLC checks it in every state)
+IsOp(h) == "op" \in DOMAIN h
+RECURSIVE OptAt(_, _)
+OptAt(h, i) == IF i = 0 THEN InitOpt ELSE IF IsOp(h[i]) THEN OptAt(h, i - 1) ELSE Eff(OptAt(h, i - 1), [fn |-> h[i].fn, arg |-> h[i].arg])
+Functional == \A i, j \in 1..Len(hist) :
+                 (IsOp(hist[i]) /\ IsOp(hist[j]) /\ hist[i].op = hist[j].op /\ hist[i].arg = hist[j].arg /\ OptAt(hist, i) = OptAt(hist, j))
+                    => hist[i].r = hist[j].r
+\* an operation only depends on the registers its class lists (MxjOptions!Relevant)
+OpClass(op) == CASE op = "dec" -> "decodeCast" [] op = "seq" -> "decodeSeq" [] op = "enc" -> "encode" [] op = "leaf" -> "leaf" [] op = "query" -> "query"
+RelOf(op) == IF op = "cast" THEN CastRegs \ {"skipTag"} ELSE Relevant[OpClass(op)]
+OnlyRelevant == Len(hist) = MaxHist => \A op \in ActiveOpSet :      \* (evaluated where a session ends: it is a function of opt alone)
+                   LET po == Project(opt, RelOf(op.op)) IN
+                   (Enabled(opt, op) /\ Enabled(po, op)) => OpResult(opt, op) = OpResult(po, op)
+
+Emit == Len(hist) = MaxHist =>
+   PrintT(ToJson([f |-> "mxj", hist |-> hist, restore |-> RestoreCalls(TRUE)]))
 AllFns == ToggleNames \cup {"DisableTrimWhiteSpace", "PrependAttrWithHyphen", "SetAttrPrefix", "XMLEscapeChars", "XMLEscapeCharsDecoder",
            "XmlGoEmptyElemSyntax", "XmlDefaultEmptyElemSyntax", "SetFieldSeparator", "SetArraySize", "SetGlobalKeyMapPrefix", "JsonUseNumber"}
+AllOpNames == {"dec", "seq", "enc", "leaf", "query", "cast"}
 =============================================================================
